@@ -197,6 +197,9 @@ pub struct CellSpec {
     /// limits followed by two update_range calls that each change ONE bound per joint
     #[serde(default)]
     pub limits_ctor: u8,
+    /// the stack is wrapped in a `Parallelogram { scaling, driven, coupled }` (outermost)
+    #[serde(default)]
+    pub parallelogram: Option<(f64, usize, usize)>,
 }
 
 impl CellSpec {
@@ -224,6 +227,12 @@ impl CellSpec {
                 c.update_range(f, t);
                 c
             }
+            // from_degrees as it comes (bounds may differ from the scenario's by a rounding error of
+            // the unit conversion, far inside the oracles' guard band)
+            3 => {
+                let r: [std::ops::RangeInclusive<f64>; 6] = std::array::from_fn(|j| f[j].to_degrees()..=t[j].to_degrees());
+                Constraints::from_degrees(r, self.sorting_weight)
+            }
             2 => {
                 let other_f: [f64; 6] = std::array::from_fn(|j| f[j] - 0.7);
                 let other_t: [f64; 6] = std::array::from_fn(|j| t[j] + 0.4);
@@ -246,9 +255,13 @@ impl CellSpec {
             Some(b) => Arc::new(Base { robot: opw, base: b.iso() }),
             None => opw,
         };
-        match &self.tool_tf {
+        let with_tool: Arc<dyn Kinematics> = match &self.tool_tf {
             Some(t) => Arc::new(Tool { robot: with_base, tool: t.iso() }),
             None => with_base,
+        };
+        match self.parallelogram {
+            Some((scaling, driven, coupled)) => Arc::new(rs_opw_kinematics::parallelogram::Parallelogram { robot: with_tool, scaling, driven, coupled }),
+            None => with_tool,
         }
     }
 
